@@ -53,6 +53,7 @@ def generate(rng, tier):
     pipelined = nreq > 1 and r.random() < 0.35
     profile = {"adversarial": r.choice([0.0, 0.3, 0.6, 0.9]), "adversarial_reply": r.choice([0.0, 0.0, 0.3, 0.7]),
                "trailers": 0.0, "bare_lf": r.choice([0.0, 0.05]), "obs_fold": 0.1, "expect": 0.1, "interim": 0.1,
+               "tail": r.choice([0.0, 0.0, 0.2]),
                "odd_method": 0.05, "http10": 0.1}
     reqs, replies, methods = [], {}, []
     for k in range(nreq):
@@ -61,6 +62,11 @@ def generate(rng, tier):
         methods.append(rq["method"])
         rp, meta = G.gen_reply(r, k, rq["method"], profile)
         rp["cuts"] = G.gen_cuts(r, len(rp["data"]))
+        tail_at = rp["data"].rfind("HTTP/1.1 200 OK\r\nX-R9")
+        if tail_at > 0:
+            # the unsolicited tail must arrive in the same segment as the end of the real response: bytes that show
+            # up after the next request went out on that connection are indistinguishable from a (fast) answer
+            rp["cuts"] = [c for c in rp["cuts"] if c < tail_at - 1]
         rp["gaps"] = G.gen_gaps(r, len(rp["cuts"]))
         rp["method"] = rq["method"]
         replies[str(k)] = rp
@@ -193,8 +199,11 @@ def recorded_response(obs, f):
     q = s["response"]
     body = f.response.data.content if (streamed and f.response is not None) else q["content"]
     alt = [P.norm_fields(x["response"]["headers"]) for x in (sh, sr) if x is not None and x["response"]] if streamed else []
-    return {"status": q["status"], "headers": P.norm_fields(q["headers"]), "headers_alt": alt, "body": body,
-            "streamed": streamed}
+    statuses = {q["status"]}
+    if streamed:
+        statuses |= {x["response"]["status"] for x in (sh, sr) if x is not None and x["response"]}
+    return {"status": q["status"], "statuses": statuses, "headers": P.norm_fields(q["headers"]), "headers_alt": alt,
+            "body": body, "streamed": streamed}
 
 
 def _hdr_diff(a, b, alts=()):
@@ -253,6 +262,9 @@ def oracle(sc, obs):
                 if m.method not in rec["methods"] or m.target not in rec["targets"]:
                     continue
                 hd = _hdr_diff(norm_req_fields(m.headers), rec["headers"], rec["headers_alt"])
+                if hd and rec["version"] in (b"HTTP/2.0", b"HTTP/3") and m.headers and m.headers[0][0].lower() == b"host":
+                    # a request recorded as HTTP/2+ without Host gets one from its authority on an HTTP/1 hop
+                    hd = _hdr_diff(norm_req_fields(m.headers[1:]), rec["headers"], rec["headers_alt"])
                 if hd:
                     why.append(hd)
                     continue
@@ -317,6 +329,19 @@ def oracle(sc, obs):
             v.append({"class": "client_stream_incomplete", "key": {"where": rp.reason},
                       "msg": f"client was left with an incomplete response ({rp.reason}) although no flow has an error; "
                              f"rest={rp.rest[:120]!r}"})
+        # each response must answer its own request: origin replies carry the token of the request they answer
+        sent_toks = []
+        for q in cp.msgs:
+            tq = TOK.search(q.target)
+            sent_toks.append(int(tq.group(1)) if tq else None)
+        for i, m in enumerate(finals):
+            # (name and value must agree, so a marker damaged by the generator's own byte mutations is ignored)
+            marks = [int(mm.group(1)) for n, val in m.headers for mm in [re.match(rb"(?i)x-r(\d+)$", n)]
+                     if mm and val == b"w" + mm.group(1)]
+            if marks and i < len(sent_toks) and sent_toks[i] is not None and marks[0] != sent_toks[i]:
+                v.append({"class": "response_for_other_request", "key": {"marker_of_unsolicited_tail": marks[0] >= 90},
+                          "msg": f"response #{i} read by the client answers token r{marks[0]} but request #{i} was "
+                                 f"r{sent_toks[i]}"})
         for i, m in enumerate(finals):
             bump("client_responses_checked")
             if i >= len(myflows):
@@ -343,7 +368,7 @@ def oracle(sc, obs):
                           "msg": f"client received {m.brief()} for flow #{i} whose response hooks never completed"})
                 continue
             problems = []
-            if rec["status"] != m.status:
+            if m.status not in rec["statuses"]:
                 problems.append(f"status wire={m.status} recorded={rec['status']}")
             hd = _hdr_diff(P.norm_fields(m.headers), rec["headers"], rec["headers_alt"])
             if hd:
@@ -376,7 +401,7 @@ def oracle(sc, obs):
     served = {tok for _, _, what, tok in obs.origin_log if what in ("request", "early_reply")}
     interim = False
     for k, rspec in sc["origins"]["*"]["replies"].items():
-        if int(k) in served and re.match(rb"HTTP/1\.[01] 1(?!01)\d\d[ \r]", H.B(rspec["data"])):
+        if int(k) in served and re.search(rb"HTTP/1\.[01] 1(?!01)\d\d[ \r]", H.B(rspec["data"])):
             interim = True
     if interim:
         bump("origin_interim_1xx")
